@@ -10,8 +10,8 @@ def run(ctx):
     ctx.check_vacuity(r, ["Open", "AWrite", "ARead", "APeek", "Reclaim", "Close"])
     hs = []
     # exhaustive operation sequences at two sizes (around a page multiple), both notification modes
-    for S, nosem in ([(4083, 1), (100, 0)] if q else [(4083, 1), (4083, 0), (4084, 1), (100, 0), (100, 1), (8179, 0)]):
-        hs += rings.gen(ctx, S, False, nosem, 3 if q else 4, "bfs", 0, True, "x%d-%d" % (S, nosem), extra_lens=[S + 1])
+    for S, nosem, d in ([(4083, 1, 3), (100, 0, 3)] if q else [(4083, 1, 4), (4083, 0, 3), (4084, 1, 3), (100, 0, 4), (100, 1, 3), (8179, 0, 3)]):
+        hs += rings.gen(ctx, S, False, nosem, d, "bfs", 0, True, "x%d-%d" % (S, nosem), extra_lens=[S + 1])
     nx = len(hs)
     # long random walks of the model over sizes around page multiples
     sizes = [1, 17, 4082, 4083, 4084, 4085, 4087, 8178, 8179, 8180, 12288] if q else \
